@@ -9,6 +9,7 @@ package main
 //   B <version> <gasLimit> <used0> <rewards0>           new block (protocol version of the VM config, block gas pool, accumulators)
 //   A <keyIdx> <nonce> <balance>                        fund the account of key <keyIdx>
 //   VAL <opKeyIdx> <valIdx> <role> <tokenYOU> <accept> <status>     pre-existing validator operated by key <opKeyIdx>
+//   OCC <keyIdx> <nonce> <n|c>                          occupy CreateAddress(key, nonce) in the pre-state (nonce 1 / code): creation collision
 //   T <mode> <keyIdx> <sigkind> <nonce> <price> <gas> <to|-> <value> <data|->
 //        mode P: state left as ApplyTransaction leaves it; W: as worker.commitTransaction (snapshot / revert on error)
 //        sigkind ok | net (signed for another network) | unprot (V = 27/28) | highs (high-s twin) | badv (V + 2)
@@ -129,7 +130,11 @@ func (e *executor) sync(a common.Address, force bool) {
 		return
 	}
 	e.synced[a] = true
-	e.ask(fmt.Sprintf("ACC %x %d %s", a.Bytes(), e.b.st.GetNonce(a), e.b.st.GetBalance(a)))
+	code := 0
+	if len(e.b.st.GetCode(a)) > 0 {
+		code = 1
+	}
+	e.ask(fmt.Sprintf("ACC %x %d %s %d", a.Bytes(), e.b.st.GetNonce(a), e.b.st.GetBalance(a), code))
 }
 
 func atoi(s string) int { n, _ := strconv.Atoi(s); return n }
@@ -196,6 +201,16 @@ func (e *executor) step(l string) bool {
 		tok := you(int64(atoi(f[4])))
 		e.b.st.CreateValidator(fmt.Sprintf("val%d", vi), op, op, params.ValidatorRole(atoi(f[3])), valKey(vi), []byte{1, 2, 3, 4},
 			tok, params.YOUToStake(tok), uint16(atoi(f[5])), 1000, 0, uint8(atoi(f[6])))
+	case "OCC": // OCC <keyIdx> <nonce> <n|c>: the address a creation by this key at this nonce derives is already occupied
+		if e.b == nil || len(f) != 4 || e.sealed {
+			return true
+		}
+		a := crypto.CreateAddress(addrs[atoi(f[1])%nKeys], atou(f[2]))
+		if f[3] == "c" {
+			e.b.st.SetCode(a, []byte{0x00})
+		} else {
+			e.b.st.SetNonce(a, 1)
+		}
 	case "T":
 		if e.b == nil || len(f) != 10 {
 			return true
@@ -465,6 +480,10 @@ func (e *executor) applyT(f []string) {
 			var sm staking.Message
 			if rlp.DecodeBytes(tx.Data(), &sm) == nil && receipt.Status != types.ReceiptStatusFailed {
 				e.stats.dist[fmt.Sprintf("applied:staking:ok:action-%d", sm.Action)]++
+			}
+			if sv := stakeValueOf(tx.Data()); receipt.Status == types.ReceiptStatusFailed && sv.Sign() > 0 && rec.balIn != nil && rec.balIn.Cmp(sv) >= 0 {
+				// a value-carrying staking message the sender could afford, refused by another check
+				e.stats.dist["applied:staking:failed-though-affordable"]++
 			}
 		} else if codeAtDest || to == nil {
 			e.stats.dist[fmt.Sprintf("applied:code-run:failed=%v", receipt.Status == types.ReceiptStatusFailed)]++
